@@ -142,6 +142,21 @@ def analyse_function(chk, db, sigs, owner, kind, rec_q, f, state):
                             dead = True
                     if bad5:
                         break
+            if bad5 is None and not by_value and apaths and all(has_q(p) for p in apaths):
+                # every path runs through an unresolved dispatch (visit), which hides which alternative pair is active. If all of
+                # them nevertheless destroy *this before they construct from the source, self-assignment cannot avoid it
+                def destroy_then_copy(p):
+                    dead = False
+                    for t in p:
+                        root = "this" if t.root == pn else t.root
+                        if t.k == "D" and root == "this":
+                            dead = True
+                        if t.k == "C" and root == "this" and t.src == pn and dead:
+                            return t
+                    return None
+                hits = [destroy_then_copy(p) for p in apaths]
+                if all(h is not None for h in hits):
+                    bad5 = (apaths[0], hits[0])
             chk.obligation("L5", construct, bad5 is None)
             if bad5:
                 chk.violation("L5", construct, "self-alias",
